@@ -172,6 +172,47 @@ def full_tree(ctx, inv: Any, out: Any) -> Any:
     return ("RT", r)
 
 
+def expected_type_forms() -> Optional[dict]:
+    """"expected types that are classes, unions and generic aliases": a TypeValidator / a coercer may name any of them
+    (also the `int | str` form, which has no __name__); both renderers answer, the first with JSON."""
+    import typing
+    from koda_validate import Coercer, IntValidator, ListValidator, always_valid
+    from koda_validate.errors import CoercionErr, TypeErr
+    from koda_validate.is_type import TypeValidator
+    from koda import nothing
+
+    class Plain:
+        pass
+    forms = [("int | str", int | str), ("typing.Union[int, str]", typing.Union[int, str]), ("typing.Optional[int]", typing.Optional[int]),
+             ("int | None", int | None), ("typing.List[int]", typing.List[int]), ("list[int]", list[int]), ("typing.Dict[str, int]", typing.Dict[str, int]),
+             ("dict[str, list[int]]", dict[str, list[int]]), ("NoneType", type(None)), ("a class", Plain), ("typing.Tuple[int, ...]", typing.Tuple[int, ...]),
+             ("typing.Any", typing.Any)]
+    for label, T in forms:
+        invs = [("TypeValidator(%s) rejecting a value" % label, lambda: TypeValidator(T)(object())),
+                ("a list of them", lambda: ListValidator(TypeValidator(T))([object()])),
+                ("a TypeErr naming it", lambda: Invalid(TypeErr(T), 1, always_valid)),
+                ("a coercer declaring it compatible", lambda: IntValidator(coerce=Coercer(lambda v: nothing, {T, bytes}))("x")),
+                ("a CoercionErr towards it", lambda: Invalid(CoercionErr({str}, T), 1, always_valid))]
+        for what, mk in invs:
+            try:
+                inv = mk()
+            except Exception:  # noqa - building the situation failed: not the renderer's business
+                continue
+            if type(inv) is not Invalid:
+                continue
+            try:
+                out = to_serializable_errs(inv)
+                if not json_only(out):
+                    return {"signature": "C12:not-json", "what": f"{what} ({label}): the rendering {out!r} is not made of JSON types"}
+                json.dumps(out, allow_nan=False)
+                msg = _get_arg_fail_message(inv)
+                if type(msg) is not str or type(str(InvalidArgsError({"a": inv}))) is not str:
+                    return {"signature": "C12:message-not-str", "what": f"{what} ({label}): the message renderer returned {msg!r}"}
+            except Exception as e:  # noqa
+                return {"signature": "C12:render-raised", "what": f"{what} ({label}): rendering {inv!r} raised {e!r}"}
+    return None
+
+
 def run(tier: str, rng: random.Random, proof_ok: bool) -> dict:
     t0 = time.time()
     violations: List[dict] = []
@@ -187,6 +228,10 @@ def run(tier: str, rng: random.Random, proof_ok: bool) -> dict:
             violations.append({"kind": "oracle", "signature": sig, "what": what,
                                "replay_case": case.to_json() if case is not None else None})
 
+    etf = expected_type_forms()
+    if etf:
+        seen.add(etf["signature"])
+        violations.append({"kind": "oracle", **etf, "replay_case": {"expected_type_forms": True}})
     n = 1500 if tier == "quick" else 30000
     G.WF_ONLY[0] = True
     cases: List[Case] = []
@@ -467,6 +512,10 @@ def replay(path: str) -> int:
     if not cj:
         print("no input in replay file:", j.get("what"))
         return 1
+    if cj.get("expected_type_forms"):
+        r = expected_type_forms()
+        print("property violated: " + r["what"] if r else "property holds for expected types of every form")
+        return 1 if r else 0
     c = case_from_json(cj)
     observe(c)
     inv = c.raw
